@@ -4,8 +4,8 @@
 From NG Require Import Common.Tactics Mempool.Model Mempool.Spec.
 Open Scope N_scope.
 
-Definition legacy_oom : cfg := mkCfg false true.
-Definition legacy_payer : cfg := mkCfg true false.
+Definition legacy_oom : cfg := mkCfg false true false.
+Definition legacy_payer : cfg := mkCfg true false false.
 
 (* F4: capacity 1, an ordinary transaction, then two responses to oracle request 7 *)
 Definition f4_a  : tx := mkTx 0 [2] 0 1000 100 false [] None.
